@@ -48,8 +48,12 @@ def cases(draw, tier, det):
         # rounding noise of either sign and the tuned quantile comes out negative - not a rounding artefact of 1e-18 but -1e-3 (D35)
         params["threshold_scale"] = None
         params["level"] = draw(st.sampled_from([0.5, 0.9, 0.99, 0.7]))
-        case["level"] = draw(st.sampled_from([1e6, 3e4, 0.0]))
-        case["unit"] = draw(st.sampled_from([1e-3, 1.0]))
+        case["level"] = draw(st.sampled_from([1e6, 3e4, 1e6, 0.0]))
+        case["unit"] = draw(st.sampled_from([1e-3, 1.0, 1e-3]))
+        if det == "CircularBinarySegmentation" and draw(st.booleans()) and K.scorer_min_size(params.get("anomaly_score"), p) <= 1:
+            # min_segment_length 1: the candidates of length 2 cannot hold an anomaly strictly inside them
+            params["min_segment_length"] = 1
+            n_min = 2
     if det in ("CAPA", "MVCAPA"):
         at_n = draw(st.sampled_from([None, None, None, -1, 0, 1]))
         if at_n is not None and n + at_n >= params["min_segment_length"]:
@@ -197,6 +201,12 @@ def default_cells(tier):
     for n in ((70_000,) if tier == "quick" else (70_000, 33_000, 140_000)):
         yield {"detector": "StatThresholdAnomaliser", "seed": 25200, "n": n, "p": 1, "frame": False, "kind": "square_wave",
                "params": {"change_detector": {"cls": "MovingWindow", "bandwidth": 1, "threshold_scale": 0.1}, "stat_lower": -0.5, "stat_upper": 0.5}}
+    # readings far from zero with tiny noise (1e6 + 1e-3 N(0,1)) and a tuned threshold at a generous level: the scores of quiet
+    # stretches are rounding noise of either sign, the tuned quantile is negative (D35)
+    for i, (lv, n, mil) in enumerate((lv, n, mil) for lv in (0.5, 0.9, 0.99) for n in (19, 30) for mil in (4, 10)):
+        for det in ("CircularBinarySegmentation", "SeededBinarySegmentation"):
+            yield {"detector": det, "seed": 25300 + i, "n": n, "p": 1, "frame": i % 2 == 1, "kind": "offset_noise",
+                   "params": {"min_segment_length": 1, "threshold_scale": None, "level": lv, "max_interval_length": mil}}
     for det, vs in variants.items():
         for seed in range(8 if tier == "quick" else 32):
             for v in vs:
@@ -211,6 +221,8 @@ def check_default(case):
     if case.get("kind") == "square_wave":
         rng = np.random.Generator(np.random.PCG64(case["seed"]))
         X, kind = (np.where(np.arange(case["n"]) % 4 < 2, 1.0, -1.0) + 0.01 * rng.standard_normal(case["n"])).reshape(-1, 1), "square_wave"
+    elif case.get("kind") == "offset_noise":
+        X, kind = 1e6 + 1e-3 * np.random.Generator(np.random.PCG64(case["seed"])).standard_normal((case["n"], case["p"])), "offset_noise"
     else:
         X, kind = D.realistic_series(case["seed"], case["n"], case["p"], case.get("kind"))
     if case["detector"] in ("CAPA", "MVCAPA"):
